@@ -153,6 +153,15 @@ func runC01(c *Check) {
 	c.scratchReset("C01-R2")
 	c.unitPadding("C01-R6")
 	c.scratchAssignedOnEveryPath("C01-R7")
+	// ids of any size resolve without an out-of-range access (sparse and huge ids round-trip)
+	c.guardRule("C01-R9", func(f *ssa.Function) bool {
+		top := f
+		for top.Parent() != nil {
+			top = top.Parent()
+		}
+		n := fnName(top)
+		return n == "(*profile.Profile).postDecode" || n == "(*profile.Profile).preEncode"
+	}, false, c02GuardExceptions)
 	c.subMessageOmission()
 }
 
@@ -473,6 +482,19 @@ func (c *Check) unitPadding(rule string) {
 		return
 	}
 	units := publish.Val
+	// the value lists the units must match: the map published as Sample.NumLabel
+	var labels ssa.Value
+	for _, b := range post.Blocks {
+		for _, ins := range b.Instrs {
+			if st, ok := ins.(*ssa.Store); ok {
+				if fa, ok := st.Addr.(*ssa.FieldAddr); ok {
+					if T, F := fieldOf(fa.X.Type(), fa.Field); T == "profile.Sample" && F == "NumLabel" {
+						labels = st.Val
+					}
+				}
+			}
+		}
+	}
 	found := false
 	for _, b := range post.Blocks {
 		for _, ins := range b.Instrs {
@@ -487,7 +509,7 @@ func (c *Check) unitPadding(rule string) {
 			// second argument: len(numLabels[key]) with the same key, inside a range over the units map
 			lx := lenArg(call.Call.Args[1])
 			lk, isLk := lx.(*ssa.Lookup)
-			if lx == nil || !isLk || lk.Index != mu.Key {
+			if lx == nil || !isLk || lk.Index != mu.Key || labels == nil || lk.X != labels {
 				continue
 			}
 			inRange := false
